@@ -39,6 +39,19 @@ type Case struct {
 	// Sorted hands the sample over in ascending order (weights attached) with its Sorted flag
 	// set: a performance hint that must not change any result.
 	Sorted bool `json:"sorted,omitempty"`
+	// Earlier, if set, is a previous life of the same KDE value: it is first configured with
+	// these settings and used (PDF, CDF, Bounds), then its exported fields are re-assigned to
+	// the settings of the case - whatever the first use left inside the value must not matter.
+	Earlier *Earlier `json:"earlier,omitempty"`
+}
+
+// Earlier lists what differed in the previous life of the KDE value (see Case.Earlier).
+type Earlier struct {
+	W       []float64 `json:"w,omitempty"` // weights then (nil: unweighted); same length as Xs
+	InPlace bool      `json:"in_place"`    // the weights slice is overwritten in place instead of replaced
+	Kernel  int       `json:"kernel"`
+	BW      float64   `json:"bw"`
+	Shift   float64   `json:"shift"` // the data then were Xs + Shift
 }
 
 func (c *Case) kde() *stats.KDE {
@@ -59,6 +72,35 @@ func (c *Case) kde() *stats.KDE {
 			}
 		}
 		k.Sample.Sorted = true
+	}
+	if e := c.Earlier; e != nil {
+		// previous life: other weights / kernel / bandwidth / location, no boundaries
+		now := *k
+		nowXs, nowW := k.Sample.Xs, k.Sample.Weights
+		k.Kernel, k.Bandwidth = stats.KDEKernel(e.Kernel), e.BW
+		k.Sample.Xs = make([]float64, len(nowXs))
+		for i, x := range nowXs {
+			k.Sample.Xs[i] = x + e.Shift
+		}
+		k.Sample.Weights = nil
+		if e.W != nil && len(e.W) == len(nowXs) {
+			k.Sample.Weights = append(make([]float64, 0, len(e.W)), e.W...)
+		}
+		if k.Bandwidth > 0 {
+			mid := k.Sample.Xs[0]
+			k.PDF(mid)
+			k.CDF(mid + k.Bandwidth/2)
+			k.PDF(mid - k.Bandwidth)
+		}
+		// re-assign the exported fields, one by one, to the settings of the case
+		k.Kernel, k.Bandwidth = now.Kernel, now.Bandwidth
+		copy(k.Sample.Xs, nowXs) // the data change in place
+		if e.InPlace && k.Sample.Weights != nil && nowW != nil {
+			copy(k.Sample.Weights, nowW)
+		} else {
+			k.Sample.Weights = nowW
+		}
+		k.Sample.Sorted = now.Sample.Sorted
 	}
 	switch c.Cfg {
 	case 1:
@@ -312,6 +354,9 @@ var checkKDE = ev.Register("kde", func(c *Case) ev.Outcome {
 		if c.Sorted {
 			classes = append(classes, "weighted-sorted-flag")
 		}
+	}
+	if c.Earlier != nil {
+		classes = append(classes, "kde-value-reused")
 	}
 	if c.Kernel != kDelta {
 		// integral of the density between consecutive probes, panels split at the kinks
@@ -610,6 +655,25 @@ func TestKDE(t *testing.T) {
 	ev.Rapid(t, "c12-kde", 12000, 96000, func(rt *rapid.T) {
 		c := drawCase(rt)
 		c.Sorted = rapid.IntRange(0, 2).Draw(rt, "sortedFlag") == 0
+		if rapid.IntRange(0, 2).Draw(rt, "reused") == 0 {
+			e := &Earlier{Kernel: c.Kernel, BW: c.BW}
+			switch rapid.IntRange(0, 3).Draw(rt, "earlierDiffers") {
+			case 0: // only the weights differ (other values, or none then / none now)
+				if rapid.Bool().Draw(rt, "earlierWeighted") || c.W == nil {
+					for range c.Xs {
+						e.W = append(e.W, float64(rapid.IntRange(1, 9).Draw(rt, "ew")))
+					}
+				}
+				e.InPlace = rapid.Bool().Draw(rt, "weightsInPlace")
+			case 1: // the kernel
+				e.Kernel = (c.Kernel + 1 + rapid.IntRange(0, 1).Draw(rt, "ek")) % 3
+			case 2: // the bandwidth
+				e.BW = c.BW * rapid.SampledFrom([]float64{2, 0.5, 1.25}).Draw(rt, "ebw")
+			default: // the data (same length)
+				e.Shift = c.BW * rapid.SampledFrom([]float64{1, -3, 0.25}).Draw(rt, "eshift")
+			}
+			c.Earlier = e
+		}
 		checkKDE.Run(rt, c)
 	})
 }
